@@ -5,5 +5,7 @@ CONSTANTS
   Dev_DupUserStucksObject = TRUE
   Dev_AuthFloodCrashes = TRUE
   Dev_HostileCountCrashes = TRUE
+  Dev_SaturationDeadlocks = FALSE
+  Dev_SendBlocksOnUnreadSocket = FALSE
 INVARIANTS ServerUp AllServe
 CHECK_DEADLOCK FALSE
